@@ -13,6 +13,11 @@ import (
 
 var out *bufio.Writer
 
+// caseOut is the process's original standard output: the case stream.  After start-up os.Stdout itself
+// points at /dev/null, so that anything the library under test prints there (a debug Println left in by a
+// change, a logger) cannot land in the middle of a case line.
+var caseOut *os.File
+
 type genFunc func(tier string, rng *Rng)
 type replayFunc func(line string) // re-run the implementation on the input part of a case
 
@@ -40,8 +45,12 @@ func main() {
 	if *seed == 0 {
 		*seed = 1
 	}
-	out = bufio.NewWriterSize(os.Stdout, 1<<20)
+	caseOut = os.Stdout
+	out = bufio.NewWriterSize(caseOut, 1<<20)
 	defer out.Flush()
+	if null, err := os.OpenFile(os.DevNull, os.O_WRONLY, 0); err == nil {
+		os.Stdout = null
+	}
 	if *replay != "" {
 		rf, ok := replays[prop]
 		if !ok {
